@@ -11,9 +11,24 @@ import json, os, sys, time, subprocess, signal, shutil, hashlib, re
 from concurrent.futures import ThreadPoolExecutor
 
 VERIF = os.path.dirname(os.path.dirname(os.path.abspath(__file__)))
-REPO = os.environ.get("VERIF_REPO", "/repo")
+REPO = os.path.abspath(os.environ.get("VERIF_REPO", "/repo"))
 HARNESS = os.path.join(VERIF, "harness")
 TARGET = os.path.join(VERIF, "target")
+OUT = VERIF  # evidence/, replays/, runs/ live here
+if REPO != "/repo":
+    # Mutation trials only (tools/seed.py): check a scratch copy of the repository without touching
+    # /repo, /verif/evidence or the regular build output. The registered commands never set VERIF_REPO.
+    _alt = os.path.join(VERIF, "target", "alt", hashlib.sha1(REPO.encode()).hexdigest()[:10])
+    os.makedirs(_alt, exist_ok=True)
+    _h = os.path.join(_alt, "harness")
+    shutil.rmtree(_h, ignore_errors=True)
+    shutil.copytree(HARNESS, _h, ignore=shutil.ignore_patterns("target", "corpus", "artifacts"))
+    for _f in ("Cargo.toml", os.path.join("fuzz", "Cargo.toml")):
+        _p = os.path.join(_h, _f)
+        if os.path.exists(_p):
+            _t = open(_p).read().replace('path = "/repo"', 'path = "%s"' % REPO)
+            open(_p, "w").write(_t)
+    HARNESS, TARGET, OUT = _h, os.path.join(_alt, "target"), _alt
 NCPU = os.cpu_count() or 8
 HOST = "x86_64-unknown-linux-gnu"
 
@@ -261,7 +276,7 @@ def load_known():
 
 
 def write_evidence(prop, tier, seed, coverage, assumptions, wall, violations):
-    os.makedirs(os.path.join(VERIF, "evidence"), exist_ok=True)
+    os.makedirs(os.path.join(OUT, "evidence"), exist_ok=True)
     ev = {
         "property_id": prop,
         "tier": tier,
@@ -272,7 +287,7 @@ def write_evidence(prop, tier, seed, coverage, assumptions, wall, violations):
         "wall_s": round(wall, 2),
         "violations": violations,
     }
-    path = os.path.join(VERIF, "evidence", prop + ".json")
+    path = os.path.join(OUT, "evidence", prop + ".json")
     tmp = path + ".tmp.%d" % os.getpid()
     with open(tmp, "w") as f:
         json.dump(ev, f, indent=1, ensure_ascii=False)
@@ -282,7 +297,7 @@ def write_evidence(prop, tier, seed, coverage, assumptions, wall, violations):
 
 
 def write_replay(prop, name, obj):
-    d = os.path.join(VERIF, "replays")
+    d = os.path.join(OUT, "replays")
     os.makedirs(d, exist_ok=True)
     path = os.path.join(d, name)
     with open(path, "w") as f:
@@ -312,7 +327,7 @@ def finish(prop, tier, seed, t0, coverage, assumptions, violation_lines, known_l
 def run_rust_property(prop, tier, seed):
     t0 = time.time()
     groups = plan(prop, tier)
-    outdir = os.path.join(VERIF, "runs", "%s-%s-%d-%d" % (prop, tier, seed, os.getpid()))
+    outdir = os.path.join(OUT, "runs", "%s-%s-%d-%d" % (prop, tier, seed, os.getpid()))
     shutil.rmtree(outdir, ignore_errors=True)
     os.makedirs(outdir)
     inconclusive = []
